@@ -37,6 +37,8 @@ def parseCOp (toks : List String) : Option COp :=
   | ["set-ready", b] => some (.setReady (b == "1"))
   | ["set-flush", b] => some (.setFlush (b == "1"))
   | ["fault", k] => (parseFault k).map .fault
+  | ["fault-skip", n] => n.toNat?.map .faultSkip
+  | ["self-wake", b] => some (.selfWake (b == "1"))
   | ["take", n] => n.toNat?.map .take
   | ["advance", n] => n.toNat?.map .advance
   | _ => none
